@@ -24,7 +24,7 @@ int main(void)
 		char *h = line + off; size_t n = 0;
 		if (*h != '-') while (h[0] && h[1] && h[0] != '\n') { in[n++] = (uint8_t)(hexv(h[0]) << 4 | hexv(h[1])); h += 2; }
 		for (char *p = fstr; *p; p++) if (*p == '+') *p = ' ';
-		rng_s = seed + 3; alarm(60);
+		rng_s = seed + 3; alarm(20);
 		uint32_t preset = (cfg & 0x1F); lzma_check check = (lzma_check)((cfg >> 8) & 15);
 		lzma_filter filters[LZMA_FILTERS_MAX + 1]; int have_f = 0;
 		if (strcmp(fstr, "-")) { int ep = 0; if (lzma_str_to_filters(fstr, &ep, filters, LZMA_STR_ALL_FILTERS, NULL)) { printf("STRERR\n"); fflush(stdout); continue; } have_f = 1; }
@@ -81,9 +81,8 @@ int main(void)
 			}
 			(void)dead;
 		}
-		alarm(0);
 		printf(" | "); if (!op) printf("-"); for (size_t i = 0; i < op; i++) printf("%02x", out[i]); printf("\n"); fflush(stdout);
-		lzma_end(&s); if (have_f) lzma_filters_free(filters, NULL);
+		lzma_end(&s); alarm(0); if (have_f) lzma_filters_free(filters, NULL);
 	}
 	free(in); free(out); return 0;
 }
